@@ -23,6 +23,13 @@ func docCfg() xmodel.GenCfg {
 	return xmodel.GenCfg{MaxDepth: 4, MaxKids: 3, MaxTop: 2, Forest: true, Wide: true, Undeclare: true, AllowBig: thorough()}
 }
 
+// docCfgStress is docCfg plus the occasional size-stress document (for checks that evaluate one expression per case).
+func docCfgStress() xmodel.GenCfg {
+	c := docCfg()
+	c.Stress = true
+	return c
+}
+
 // genBindings draws prefix bindings for queries over generated documents:
 // query prefixes deliberately differ from the document's.
 func genBindings(t *rapid.T) map[string]string {
@@ -127,7 +134,7 @@ func TestC01(t *testing.T) {
 
 	// (iii) multi-step paths, absolute paths inside predicates and arguments
 	runProp(t, "paths", 24000, 300000, func(t *rapid.T) {
-		ev := xmodel.Gen(t, docCfg())
+		ev := xmodel.Gen(t, docCfgStress())
 		p, err := prepareDoc(ev)
 		if err != nil {
 			st.Discard("document-not-mirrored")
@@ -196,7 +203,7 @@ func TestC01(t *testing.T) {
 	// the root, an inner context node, a mixed-kind node-set variable or a
 	// parenthesised union; abbreviated or not
 	runProp(t, "walks", 16000, 200000, func(t *rapid.T) {
-		ev := xmodel.Gen(t, docCfg())
+		ev := xmodel.Gen(t, docCfgStress())
 		p, err := prepareDoc(ev)
 		if err != nil {
 			st.Discard("document-not-mirrored")
